@@ -9,6 +9,11 @@ harness prints the answers the real store gave in the concurrent run.
     recv <keyhex> <valhex> | fetch <k> | stat <k> | enum <afterhex> <limit> | rm <k>
     irecv <k> <v> | meta <k> | claims <permanode k> | query     (indexer: same map; a permanode's
                                    claims are the received blobs whose bytes mention its ref)
+    aclaim <id> <pn> <date> <set|add|del> <valhex> <size> | adel <id> <target id> <size>
+                                  an attribute claim on `tag` of permanode <pn> / a delete claim, received
+    qd <valhex>                   search query "permanodes whose tag has this value" WITH describe: the
+                                  matching permanodes, each with the tag values of its description – both
+                                  taken from ONE state: the fold, in date order, of the claims received
 -/
 namespace Pk.Drv.C14
 open Pk Pk.RefMap
@@ -34,35 +39,92 @@ def isInfix (needle : Bytes) : Bytes → Bool
 def claimsOf (m : SMap Bytes) (pn : Bytes) : List (Bytes × Nat) :=
   (m.filter (fun p => isInfix pn p.2)).map (fun p => (p.1, p.2.length))
 
-abbrev St := Option (SMap Bytes)
+/-- an attribute claim (or a delete claim of one) as the query+describe programs see it -/
+structure QItem where
+  id : Nat
+  pn : Nat
+  date : Nat
+  ctype : String      -- set | add | del | delete
+  val : Bytes
+  target : Nat
 
-def run1 (m : SMap Bytes) (op : Op) : St × String := (some (next m op), showOut (out m op))
+structure State where
+  m : SMap Bytes
+  items : List QItem
+
+abbrev St := Option State
+
+def insByDate (x : QItem) : List QItem → List QItem
+  | [] => [x]
+  | y :: r => if x.date < y.date then x :: y :: r else y :: insByDate x r
+
+def insNat (x : Nat) : List Nat → List Nat
+  | [] => [x]
+  | y :: r => if x < y then x :: y :: r else if x = y then y :: r else y :: insNat x r
+
+/-- one claim applied to a permanode's list of tag values (search/describe.go populatePermanodeFields:
+set-attribute replaces, add-attribute appends a value not yet there, del-attribute removes the value) -/
+def applyClaim (vals : List Bytes) (it : QItem) : List Bytes :=
+  if it.ctype == "set" then [it.val]
+  else if it.ctype == "add" then (if vals.contains it.val then vals else vals ++ [it.val])
+  else if it.ctype == "del" then vals.filter (· != it.val)
+  else vals
+
+/-- the answer of the query with describe: from ONE set of received claims -/
+def qdAnswer (items : List QItem) (want : Bytes) : String :=
+  let deleted := (items.filter (·.ctype == "delete")).map (·.target)
+  let live := (items.filter (fun it => it.ctype != "delete" && !deleted.contains it.id)).foldl
+    (fun acc it => insByDate it acc) []
+  let pns := items.foldl (fun acc it => if it.ctype == "delete" then acc else insNat it.pn acc) []
+  let parts := pns.filterMap (fun pn =>
+    let vals := (live.filter (·.pn == pn)).foldl applyClaim []
+    if vals.contains want then some s!"{pn}={",".intercalate (vals.map toHexString)}" else none)
+  ("q " ++ " ".intercalate parts).trimRight
+
+def run1 (s : State) (op : Op) : St × String := (some { s with m := next s.m op }, showOut (out s.m op))
 
 def step (st : St) (ws : List String) : St × String :=
   match ws with
-  | ["store", _] => (some [], "ok")
+  | ["store", _] => (some ⟨[], []⟩, "ok")
   | _ =>
     match st with
     | none => (st, "bad-op")
-    | some m =>
+    | some s =>
+      let m := s.m
       match ws with
+      | ["aclaim", id, pn, date, ct, v, size] =>
+        (match id.toNat?, pn.toNat?, date.toNat?, hexArg v, size.toNat? with
+         | some id, some pn, some date, some v, some size =>
+           if ct == "set" || ct == "add" || ct == "del" then
+             (some { s with items := s.items ++ [⟨id, pn, date, ct, v, 0⟩] }, s!"sized {size}")
+           else (st, "bad-op")
+         | _, _, _, _, _ => (st, "bad-op"))
+      | ["adel", id, tgt, size] =>
+        (match id.toNat?, tgt.toNat?, size.toNat? with
+         | some id, some tgt, some size =>
+           (some { s with items := s.items ++ [⟨id, 0, 0, "delete", [], tgt⟩] }, s!"sized {size}")
+         | _, _, _ => (st, "bad-op"))
+      | ["qd", v] =>
+        (match hexArg v with
+         | some v => (st, qdAnswer s.items v)
+         | none => (st, "bad-op"))
       | [w, k, v] =>
         if w == "recv" || w == "irecv" then
           (match hexArg k, hexArg v with
-           | some k, some v => run1 m (.recv k v)
+           | some k, some v => run1 s (.recv k v)
            | _, _ => (st, "bad-op"))
         else if w == "enum" then
           (match hexArg k, v.toNat? with
-           | some a, some n => run1 m (.enum a n)
+           | some a, some n => run1 s (.enum a n)
            | _, _ => (st, "bad-op"))
         else (st, "bad-op")
       | [w, k] =>
         (match hexArg k with
          | none => (st, "bad-op")
          | some k =>
-           if w == "fetch" then run1 m (.fetch k)
-           else if w == "stat" || w == "meta" then run1 m (.stat k)
-           else if w == "rm" then run1 m (.rm k)
+           if w == "fetch" then run1 s (.fetch k)
+           else if w == "stat" || w == "meta" then run1 s (.stat k)
+           else if w == "rm" then run1 s (.rm k)
            else if w == "claims" then (st, ("refs " ++ showPairs (claimsOf m k)).trimRight)
            else (st, "bad-op"))
       | ["query"] => (st, "ok")
